@@ -8,7 +8,7 @@ import (
 )
 
 func init() {
-	register("C09", "other", LoadOpts{TC: true, SSA: true}, checkC09)
+	register("C09", "other", LoadOpts{TC: true, SSA: true, Controls: []string{"ep"}}, checkC09)
 }
 
 // sinkSeeds: the io.Writer parameter of NewParquetWriter in every G_tc package.
@@ -48,7 +48,8 @@ func checkC09(c *Ctx) {
 	t := c.U.NewTaint(sinkSeeds(c)...)
 	ops := BuildOps(c.U, t)
 	debugSites(c, ops)
-	runEP(c.U, r, "EP/sink", ops, nil)
+	runEP(c.U, r, "EP/sink", ops, func(s *OpSite) bool { return !c.U.isCtl(s.Fn) })
+	c.controlsEP()
 	r.Analysed["call_sites_touching_sink"] = len(ops.Sites)
 	for _, b := range ops.Beliefs {
 		r.ok("EP/sink/belief", b[:indexOr(b, " at ")], "", b)
